@@ -592,3 +592,21 @@ B('e_bind_all_rebinds_the_unbound_routes_named', ['C11'], 'R11.e',
 T('e_bound_route_rebinds_itself_named', ['C10', 'C11'],
   (R, '        return BoundRoute(self, app, **kwargs)\n\n    def iter_routes(self):\n        yield self\n\n    @property',
       '        inner = self\n        rebound = BoundRoute(inner, app, **kwargs)\n        return rebound\n\n    def iter_routes(self):\n        yield self\n\n    @property'))
+
+# ---- R10.c: the executed chain is compiled at every binding from the list merged at that binding
+_CHAIN = '        self._execute = make_middleware_chain(self.middlewares, unbound_route.endpoint, render, provided)\n'
+B('e_chain_shared_when_the_stack_compares_equal', ['C10'], 'R10.c',
+  (R, _CHAIN, '        chain_key = (self.middlewares, render, frozenset(provided))\n'
+              "        if getattr(route, '_chain_key', None) == chain_key:\n            self._execute = route._execute\n        else:\n    "
+              + _CHAIN + '        self._chain_key = chain_key\n'))
+B('e_chain_taken_over_when_there_is_one', ['C10'], 'R10.c',
+  (R, _CHAIN, "        self._execute = getattr(route, '_execute', None) or make_middleware_chain(self.middlewares, unbound_route.endpoint, render, provided)\n"))
+B('e_chain_kept_when_the_application_adds_no_middleware', ['C10'], 'R10.c',
+  (R, _CHAIN, "        if not app_mws and hasattr(route, '_execute'):\n            inner_chain = route._execute\n            self._execute = inner_chain\n"
+              '        else:\n    ' + _CHAIN))
+B('e_chain_compiled_from_the_unmerged_list', ['C10'], 'R10.c',
+  (R, _CHAIN, "        own_mws = tuple(getattr(route, 'middlewares', ()))\n"
+              '        self._execute = make_middleware_chain(own_mws, unbound_route.endpoint, render, provided)\n'))
+T('e_chain_compiled_through_named_temporaries', ['C10', 'C11'],
+  (R, _MERGE, "        merged = tuple(merge_middlewares(getattr(route, 'middlewares', []), app_mws))\n        self.middlewares = merged\n"),
+  (R, _CHAIN, '        chain = make_middleware_chain(merged, unbound_route.endpoint, render, provided)\n        self._execute = chain\n'))
